@@ -46,6 +46,7 @@ def Ty.hasSelfL : List Ty → Bool
   | t :: ts => t.hasSelf || Ty.hasSelfL ts
 def Seg.hasSelf : Seg → Bool
   | .mk _ args => GArg.hasSelfL args
+  | .fn _ args ret => Ty.hasSelfL args || Ty.hasSelfO ret
 def Seg.hasSelfL : List Seg → Bool
   | [] => false
   | s :: ss => s.hasSelf || Seg.hasSelfL ss
@@ -97,6 +98,7 @@ theorem expandSelf_no_self (to : Ty) (hto : to.hasSelf = false) :
             cases args with
             | cons _ _ => simp [Ty.isSelf, Seg.expandSelfL, Seg.expandSelf, GArg.expandSelfL]
             | nil => simpa [Ty.isSelf, Seg.expandSelfL, Seg.expandSelf, GArg.expandSelfL] using h
+        | fn i args ret => cases rest <;> simp [Ty.isSelf, Seg.expandSelfL, Seg.expandSelf]
   all_goals (intros; simp_all [Ty.expandSelf, Ty.hasSelf, Ty.expandSelfO, Ty.hasSelfO, Ty.expandSelfL, Ty.hasSelfL,
     Seg.expandSelf, Seg.hasSelf, Seg.expandSelfL, Seg.hasSelfL, GArg.expandSelf, GArg.hasSelf, GArg.expandSelfL, GArg.hasSelfL])
 
